@@ -115,11 +115,34 @@ def _job(args):
     for j in jobs:
         fw = _fw(j['len'], j.get('fwseed', 0), j.get('tail'), j.get('tail_len', 0))
         path = os.path.join(workdir, 'fw_%d.bin' % os.getpid())
-        with open(path, 'wb') as f:
-            f.write(fw)
+        feeder = None
+        if os.path.lexists(path):
+            os.unlink(path)
+        if j.get('via') == 'fifo':
+            # the image arrives through a named pipe (process substitution, /dev/stdin): its size is not known before it is read
+            import threading
+            os.mkfifo(path)
+
+            def feed(p=path, data=fw):
+                with open(p, 'wb') as f:
+                    f.write(data)
+            feeder = threading.Thread(target=feed, daemon=True)
+            feeder.start()
+        else:
+            with open(path, 'wb') as f:
+                f.write(fw)
         rec = D.run_dfu(path, fw, j['variant'], {int(k): v for k, v in j.get('schedule', {}).items()},
                         start_err=j.get('start_err', False), strict=j.get('strict', True),
                         default_busy=tuple(j.get('default_busy', (0,))), script=j.get('script'))
+        if feeder is not None:
+            if feeder.is_alive():
+                # the tool never opened / drained the pipe: unblock the writer
+                try:
+                    fd = os.open(path, os.O_RDONLY | os.O_NONBLOCK)
+                    os.close(fd)
+                except OSError:
+                    pass
+            feeder.join(5)
         rec['job'] = {k: v for k, v in j.items() if k != 'script'}
         recs.append(rec)
     return recs
@@ -165,7 +188,11 @@ def gen_jobs(run, behaviours):
             for tail in (None, 0xff, 0x00, 0x0a):
                 # (the excess over the capacity, and more, made of bytes that "do not matter")
                 jobs.append({'kind': 'oversize', 'variant': variant, 'len': capb + extra, 'strict': True,
-                             'start_err': rng.random() < 0.3, 'tail': tail, 'tail_len': extra + rng.choice([0, 1, 2000])})
+                             'start_err': rng.random() < 0.3, 'tail': tail, 'tail_len': extra + rng.choice([0, 1, 2000]),
+                             'via': 'fifo' if tail is None and extra in (1, 1024, 4096) else 'file'})
+        for n in (0, 1, 1500, capb):
+            jobs.append({'kind': 'timing', 'variant': variant, 'len': n, 'schedule': {}, 'strict': True, 'start_err': False, 'default_busy': [],
+                         'fwseed': rng.randrange(1000), 'via': 'fifo'})
     # (B2) single and double error injections at every erase / write step
     statuses = list(range(1, 16))
     for npages in ([1, 2, 3] if run.tier == 'quick' else [1, 2, 3, 4, 5, 8]):
